@@ -11,28 +11,45 @@ RULE = ("exhaustive: every op sequence of length <= 2 (quick) / 3 (thorough) ove
         "(incl. the owner's channel-mode Publish on a full queue, which blocks); global-fill (60 quick / 600 thorough): 2-4 local centres GSubscribe the same 1-3 names, "
         "1..all of them are filled to 996-1000 pending events through a private name, the shared names are published before / at / after the fill level "
         "(k = 1..3 copies), full centres are partially drained in between, and every queue is finally read back completely (ODrain + run-length-encoded bulk receive) - "
-        "a centre with room must get every publication exactly once whatever the other queues hold, for every sync.Map Range order; random: 8-50 ops over 4 local centres (direct + channel mode, "
+        "a centre with room must get every publication exactly once whatever the other queues hold, for every sync.Map Range order; "
+        "run services (centres 4, 5 = the EventCenter of a real StandardRunService, owned by its loop goroutine): service-exhaustive: every op sequence of length <= 2 (quick) / 3 (thorough) "
+        "over an 11-op life-cycle alphabet (Start, let the loop run, global publication, Stop() from the driver = a foreign goroutine / from the loop's busy task, the loop subscribes a listener that "
+        "calls Stop() when invoked, the driver subscribes a re-publishing listener, the loop sends to its own queue, a foreign send nobody listens to, Clear and Unsubscribe by the loop) after a global "
+        "subscription, with the service started or not, followed by publication / run / publication / subscription / send; teardown (120 quick / 1200 thorough): 1-3 listeners subscribed before or after Start, "
+        "backlog before Start, deliveries, 0-3 publications left pending because the loop is busy, Stop() by the driver / the busy task / a listener / the other service's loop / not at all, publications and "
+        "subscriptions after Stop() and after the loop has ended, second Start / Stop; service-random (every third random case): 8-50 ops over two run services, a channel centre, a direct centre and a light "
+        "centre with every action issued either by the driver or by a loop goroutine; "
+        "random: 8-50 ops over 4 local centres (direct + channel mode, "
         "SetLocalUseChan), the global centre and 2 light centres, listener programs of 0-3 re-entrant actions nested up to depth 2. "
-        "Non-trivial = at least one listener was actually invoked; distinct = distinct op sequences.")
+        "Every listener invocation records the goroutine it ran on. "
+        "Non-trivial = at least one listener was actually invoked, a bulk receive returned events, a run service was stopped, or its loop handled an event nobody listens to; distinct = distinct op sequences.")
 TRUSTED_BASE = [
     "Coq 8.16.1 kernel + vm_compute (case evaluation, Examples); no native_compute",
-    "hand translation utils/event/{localeventcenter,globaleventcenter}.go and utils/event/light/{lighteventcenter,list}.go (with hooks/C17-fix-1..4 applied) -> C17/Model.v, measured by this correspondence run",
-    "Go harness harness/c17 (scripted callbacks, per-case owner goroutine, watchdog that declares VDeadlock when the case goroutine is parked and made no progress for 0.4 s, shadow table used only to avoid ambiguous unsubscribe-by-callback), bin/check.py JSON->Coq term printer",
+    "hand translation utils/event/{localeventcenter,globaleventcenter}.go, utils/event/light/{lighteventcenter,list}.go (with hooks/C17-fix-1..4 applied) and utils/runservice/standardrunservice.go (Start: event selector on the loop goroutine; Stop: TimerMgr.Stop, EventCenter.Clear, RunService.Stop) -> C17/Model.v, measured by this correspondence run",
+    "Go harness harness/c17 (scripted callbacks, per-case driver goroutine, real StandardRunService per service centre whose loop is kept busy inside a scheduler task between driver operations and released by ORun, watchdog that declares VDeadlock when all goroutines of the case are parked and made no progress for 0.4 s, shadow table used only to avoid ambiguous unsubscribe-by-callback), bin/check.py JSON->Coq term printer",
+    "goroutine identity is observed: ids parsed from runtime.Stack, mapped to tokens 0 = driver, 4/5 = the goroutine that runs the service's scheduler tasks (recognised by the runservice.(*RunService).loop frame before its first task), -1 = any other",
+    "deliveries by a service's loop are not wrapped by the harness (the real event selector calls DoEvent): VDeq/VBegin of such a delivery are logged at its first listener invocation from what that listener sees (its name, the arguments behind its bound ones) and the number of events the loop has received so far (events put into the channel - len(channel), exact because only one goroutine of a case runs at a time); events received without any invocation are logged as a count (VSkip); what the loop silently receives after Stop() is not logged and the rest of its queue is discarded when the loop has ended",
     "the observed trace is used as the model's order oracle (it only chooses in which order a publication visits its snapshot = Go map iteration order); every theorem is proved for all oracles",
-    "modelled not verified: Go channels (FIFO, capacity 999, non-blocking select), sync.RWMutex, sync.Map, map iteration (any order), reflect code pointers (4 distinct function literals), goroutine identity (all listener invocations of a case happen on the case's owner goroutine by construction of the driver)",
+    "modelled not verified: Go channels (FIFO, capacity 999, non-blocking select), sync.RWMutex, sync.Map, map iteration (any order), reflect code pointers (4 distinct function literals), reflect.Select of the run service's selector (which ready channel is handled first: the harness only looks at quiescent states), sche.Sche / timer.Mgr (only their Stop is exercised)",
 ]
 ASSUMPTIONS = [
-    "all operations on one local/light centre are issued by its owning goroutine (the light centre is documented as not thread-safe; concurrent publishers on a LocalEventCenter are not modelled - the repaired dispatch holds no lock while a listener runs)",
+    "subscribe / unsubscribe / clear / direct publication on a local or light centre are issued by its owning goroutine (the light centre is documented as not thread-safe; the repaired dispatch holds no lock while a listener runs); from any goroutine: GlobalEC.Publish, a channel-mode Publish (a send) and StandardRunService.Stop() - an action on a centre the acting goroutine does not own is otherwise not issued (VNop)",
+    "no two goroutines of a case run at the same time: while the driver (or the other service) acts, a started loop is busy inside a scheduler task, so publications racing a Stop() are covered at operation granularity (published before Stop() and still queued / after Stop() returned but before the loop ended / after the loop ended), not at the granularity of the statements inside Stop(); Stop() is called at most once per service and only after Start() (a second Stop() panics on the closed channel)",
     "callbacks are the scripted family: a finite program of subscribe/unsubscribe/clear/publish/global-publish actions, not run deeper than nesting level 2 (bounds the Go stack)",
     "an unsubscribe-by-callback whose target is ambiguous (several listeners with that code pointer in the list; the code leaves the choice to map order) is not issued",
     "listener ids are compared as creation-order tokens; event names and arguments are integer tokens",
 ]
 TECHNIQUE = ("Coq proof (trace semantics: the model may only emit events allowed by a history-function specification; induction over "
-             "operations and nesting depth with a loop invariant for the dispatch loop, for every iteration order) + differential "
-             "correspondence against the real LocalEventCenter / GlobalEventCenter / light.EventCenter with re-entrant scripted listeners under a deadlock watchdog")
+             "operations and nesting depth with a loop invariant for the dispatch loop, for every iteration order; the executing goroutine is a parameter of the "
+             "dispatch and must own the centre) + differential "
+             "correspondence against the real LocalEventCenter / GlobalEventCenter / light.EventCenter / StandardRunService with re-entrant scripted listeners that "
+             "report their goroutine, under a deadlock watchdog")
 LEVEL_TEXT = ("Machine-checked Coq theorems over all histories, all listener programs and all map-iteration orders: each publication invokes "
               "exactly the listeners subscribed to that centre and name at the time of the call, at most once, and every one still subscribed at the end; "
               "arguments are bound ++ published; an unsubscribed listener / a cleared centre's listener is never invoked again (also when that happens "
               "inside a listener of the same publication); a global publication appends exactly one copy to the queue of every centre with a live global "
-              "subscription unless the queue holds 999; nothing blocks except a channel-mode send on a full queue. The model is tied to the Go code by running "
+              "subscription unless the queue holds 999; nothing blocks except a channel-mode send on a full queue; every listener invocation happens on the goroutine that owns "
+              "its centre - the run service's loop from Start() until the loop has ended, the driver otherwise - for every history including teardown: events pending when Stop() is called "
+              "(by a foreign goroutine, by the loop's own task or by a listener) are delivered by the loop before Stop() or dropped, never delivered elsewhere and never after the Clear() "
+              "inside Stop(); after Stop() nothing is received, subscribed, stopped or started again and the loop ends. The model is tied to the Go code by running "
               "both on the same histories each run and comparing the complete event traces.")
